@@ -185,6 +185,19 @@ func knownNonNil(t *Term) bool {
 		}
 	case "const":
 		return true
+	case "call":
+		// constructors of error libraries (errors.New, fmt.Errorf, hes.New…) return a value
+		if t.Fn != nil && !isPikeFunc(t.Fn) && t.Fn.Signature.Recv() == nil {
+			nm := t.Fn.Name()
+			if nm == "Errorf" || strings.HasPrefix(nm, "New") || nm == "Wrap" && false {
+				if _, isPtr := t.Type.Underlying().(*types.Pointer); isPtr {
+					return true
+				}
+				if t.Type != nil && types.Identical(t.Type, types.Universe.Lookup("error").Type()) {
+					return true
+				}
+			}
+		}
 	}
 	return false
 }
